@@ -119,6 +119,20 @@ class CallTreeTransformer(converter.Base):
         node.returns = self.visit(node.returns)
       return node
 
+  def _visit_loop_directives(self, node):
+    # The arguments of loop directives were moved from the loop body into an
+    # annotation; they are emitted as part of the loop call later on.
+    for args in anno.getanno(node, anno.Basic.DIRECTIVES, {}).values():
+      for name, value in args.items():
+        args[name] = self.visit(value)
+    return self.generic_visit(node)
+
+  def visit_While(self, node):
+    return self._visit_loop_directives(node)
+
+  def visit_For(self, node):
+    return self._visit_loop_directives(node)
+
   def visit_With(self, node):
     # Context manager calls (in node.items) are not converted.
     node.body = self.visit_block(node.body)
